@@ -47,7 +47,7 @@ PROPS = {
     "C13": {"title": "read-only operations leave programs unchanged; instances independent", "level": "proof",
             "sections": [("frames", {}), ("pyvc", {}), ("witness", W)]},
     "C14": {"title": "shipped lexers/parsers recognise exactly the language of blackbird.g4", "level": "other",
-            "sections": [("atnk", {"groups": ["identity", "lexer_eq", "parser_eq", "codegen_sim"]})],
+            "sections": [("atnk", {"groups": ["identity", "lexer_eq", "parser_eq", "codegen_sim"]}), ("witness", {"n_quick": 400, "n_thorough": 6000})],
             "explanation": "closed obligations over the shipped artefacts (serialized ATNs, .interp, .tokens, g4): carrier identity, tagged-DFA equivalence of the lexer, "
                            "rule-wise regular equivalence of the parser ATN with the g4 right-hand sides, generated-code/ATN correspondence; each is decided completely "
                            "by evaluation (representation invariant against an abstract view; translation validation of ANTLR's output for this grammar, not of ANTLR)"},
